@@ -54,9 +54,9 @@ type c20prog struct {
 	Word  []int `json:"word"`
 	Fault int   `json:"fault"`
 	Host  int   `json:"host"`
-	Rep   int   `json:"rep,omitempty"` // uniform chain: Word holds one kind, repeated Rep times
-	Pad   int   `json:"pad,omitempty"` // number of unrelated functions declared before the chain (name indexes and line numbers beyond 8 bits)
-	Lit   bool  `json:"lit,omitempty"` // a function literal precedes the fault in the innermost function
+	Rep   int   `json:"rep,omitempty"`  // uniform chain: Word holds one kind, repeated Rep times
+	Pad   int   `json:"pad,omitempty"`  // number of unrelated functions declared before the chain (name indexes and line numbers beyond 8 bits)
+	Lit   bool  `json:"lit,omitempty"`  // a function literal precedes the fault in the innermost function
 	Deep  bool  `json:"deep,omitempty"` // the package lives at import path lib/c (directory path differs from the package name)
 }
 
